@@ -444,6 +444,18 @@ example : (evaluate false env0 (.bin .add md20 (.leaf (.var [[2], [0]] true (-1)
 /-- an ill-typed tree: size mismatch raises ValueError in both evaluations -/
 example : parse true env0 (.bin .add v02 (.leaf (.dense [1, 2, 3]))) = .error .valueError := by
   simp [parse, parseLeaf, parseBin, py, pyAd, adAdd, v02, adRows]
+/-- hypotheses of `shiftTime_no_current`, `const_add_keeps_jacobian`, `reverse_build`, `evaluate_val_noderiv` are satisfiable -/
+example : v02.indexOk = true ∧ md20.indexOk = true := by decide
+example : (parse true env0 (.bin .add (.leaf (.var [[0, 2]] false 0 (-1))) v02)).toOption
+      = some (.ad [⟨11, [1, 0, 0]⟩, ⟨33, [0, 0, 1]⟩]) := by decide +kernel
+example : (build (.bin .add (.raw (.arr [5, 6])) (.tree v02))).toOption.map (fun b => match b with | .tree t => some t | _ => none)
+      = some (some (.bin .add v02 (.leaf (.dense [5, 6])))) := by decide +kernel
+example : (direct true env0 v02).toOption.map Value.isData = some true := by decide +kernel
+example : (evaluate true env0 (.bin .sub (.leaf (.scalar 1)) v02)).toOption = some (.ad [⟨0, [-1, 0, 0]⟩, ⟨-2, [0, 0, -1]⟩])
+    ∧ (evaluate false env0 (.bin .sub (.leaf (.scalar 1)) v02)).toOption = some (.vec [0, -2]) := by decide +kernel
+/-- a wrapped function `f(x, y) = x*y - 2` of a current and a previous variable -/
+example : (evaluate true env0 (.func2 (.sub (.mul .x .y) (.const 2)) v02 (.leaf (.var [[0, 2]] false 0 (-1))))).toOption
+      = some (.ad [⟨8, [10, 0, 0]⟩, ⟨88, [0, 0, 30]⟩]) := by decide +kernel
 example : v02.noCurrent = false ∧ (OpTree.leaf (.var [[0, 2]] false 0 (-1))).noCurrent = true := by decide
 
 end PorepyVerif.C02
